@@ -64,9 +64,9 @@ let parse_obs (t : string list) : gobs =
       let rec mes k l = if k = 0 then ([], l) else
         match l with
         | name :: cur :: cnt :: r' ->
-            let (es, r'') = take_n (3 * int_of_string cnt) r' in
+            let (es, r'') = take_n (4 * int_of_string cnt) r' in
             let rec eps = function
-              | id :: p :: st :: r -> { oe_id = ion id; oe_prio = ioz p; oe_st = ioz st; oe_tmr = z_of_int (-1) } :: eps r
+              | id :: p :: st :: tm :: r -> { oe_id = ion id; oe_prio = ioz p; oe_st = ioz st; oe_tmr = ioz tm } :: eps r
               | _ -> [] in
             let (ms, rest) = mes (k - 1) r'' in
             ({ om_name = ion name; om_cur = ion cur; om_eps = eps es } :: ms, rest)
@@ -115,6 +115,8 @@ let parse_op (t : string list) (out : gout) : gop =
         | [] -> raise (Bad "UB without K") in
       let (o, fails) = parse_opts (split [] r) in
       GUpdate (o, fails, List.map fst out.og_dials, fst !last_readys)
+  | ["TB"; n; k] -> GTick (ion n, OpBegin (nat_of_int (int_of_string k)))
+  | ["TE"; n; k] -> GTick (ion n, OpEnd (nat_of_int (int_of_string k)))
   | ["SU"; e] -> GMark (true, ion e)
   | ["SD"; e] -> GMark (false, ion e)
   | ["P"; e; b] -> GReady (ion e, b <> "0")
@@ -154,6 +156,15 @@ let parse_file path : hist list =
                              if mo.og_err = Z0 then Some s1 else None
                          | _ -> None) in
                hs := { h_line = i + 1; h_events = [ev]; h_model = st } :: !hs
+           | ["TA"; dt], _ ->
+               (* the one virtual clock advances: a clock step of every MultiEndpoint (nothing
+                  observable changes, every step carries the same observation) *)
+               (match !hs with
+                | h :: _ ->
+                    List.iter (fun m ->
+                      advance h { ge_op = GTick (m.om_name, OpAdvance (ioz dt)); ge_out = out; ge_obs = obs })
+                      obs.ob_mes
+                | [] -> raise (Bad "event before H"))
            | "UC" :: r, Some o2 ->
                (* two updates, expected to take effect in sequence.  The observation between
                   them does not exist in the implementation (update 2 waits for gme.mu while
@@ -204,6 +215,9 @@ let cop = function
   | GMark (b, e) -> Printf.sprintf "GMark %s %s" (cb b) (cn e)
   | GCall c -> "GCall " ^ cctx c
   | GClose -> "GClose"
+  | GTick (n, OpAdvance d) -> Printf.sprintf "GTick %s (OpAdvance %s)" (cn n) (cz d)
+  | GTick (n, OpBegin k) -> Printf.sprintf "GTick %s (OpBegin %d%%nat)" (cn n) (int_of_nat k)
+  | GTick (n, OpEnd k) -> Printf.sprintf "GTick %s (OpEnd %d%%nat)" (cn n) (int_of_nat k)
   | GTick (_, _) -> raise (Bad "tick")
 let cout o = Printf.sprintf "(mkGOut %s %s %s)" (cz o.og_err)
     (clist (fun (e, b) -> "(" ^ cn e ^ ", " ^ cb b ^ ")") o.og_dials) (cz o.og_call)
